@@ -60,3 +60,26 @@ UNITS += [
                                        ('C17', same_field('planData.taskLinks._items[g_s].prev') + ' && ' + same_field('planData.taskLinks._items[g_s].next'))])},
              ghost=c10.PL_GHOST + GQ, props=['C17', 'C11', 'C18']),
 ]
+
+# copies of the machine object: R_ (defaulted, member-wise) and RV_<Automatic> (user-provided, does not re-enter)
+CORE_COPY = dict(requires=[], assigns=['*self'],
+                 ensures=['self->context == other->context && self->logger == other->logger && self->registry.active == other->registry.active && self->registry.requested == other->registry.requested',
+                          t_eq('self->request', 'other->request'), t_eq('self->previousTransition', 'other->previousTransition'), 'self->planData.planExists == other->planData.planExists'])
+M_RECS = dict(RECS); M_RECS.update({'RV_': r'^ffsm2::detail::RV_<', 'RP_': r'^ffsm2::detail::RP_<', 'InstanceT': r'^ffsm2::detail::InstanceT<'})
+def copy_ens(dst, src):
+    return [('C17,C01', '%s.registry.active == %s.registry.active && %s.registry.requested == %s.registry.requested' % (dst, src, dst, src)),
+            ('C17', t_eq(dst + '.request', src + '.request')), ('C17,C11', t_eq(dst + '.previousTransition', src + '.previousTransition')),
+            ('C17', '%s.context == %s.context && %s.logger == %s.logger && %s.planData.planExists == %s.planData.planExists' % (dst, src, dst, src, dst, src))]
+UNITS += [
+    dict(id='c17.R_.copy', witness=W, recs=M_RECS, opaque=OPAQUE + [r'^ffsm2::detail::C_<'], opaque_keep={'PlanDataT': ['planExists']}, props=['C17', 'C11', 'C18'], consts=CONSTS, ghost=GHOST,
+         target=dict(cls=r'^ffsm2::detail::R_<', kind='ctor', name='R_', nparams=1, sig=r'^void \(const ffsm2::detail::R_'),
+         calls={'re:^CoreT__cctor': 'contract'},
+         contracts={'@target': dict(requires=[fresh('self'), fresh('_unnamed0')], assigns=['*self'], ensures=copy_ens('self->_core', '_unnamed0->_core')),
+                    '@re:^CoreT__cctor': CORE_COPY}),
+    dict(id='c17.RV_.copy', witness=W, recs=M_RECS, opaque=OPAQUE + [r'^ffsm2::detail::C_<'], opaque_keep={'PlanDataT': ['planExists']}, props=['C17', 'C01', 'C18'], consts=CONSTS, ghost=GHOST,
+         target=dict(cls=r'^ffsm2::detail::RV_<', kind='ctor', name='RV_', nparams=1, sig=r'^void \(const ffsm2::detail::RV_'),
+         calls={'re:^R___cctor': 'contract'},
+         # copying runs no callback (the copy inherits "entered": no clock tick, protocol ghosts untouched)
+         contracts={'@target': dict(requires=[fresh('self'), fresh('other')], assigns=['*self'], ensures=copy_ens('self->_b0._core', 'other->_b0._core') + [('C17', 'g_clock == __CPROVER_old(g_clock)')]),
+                    '@re:^R___cctor': dict(requires=[], assigns=['*self'], ensures=[e[1].replace('self->_core', 'self->_core').replace('_unnamed0->', '{p0}->') for e in copy_ens('self->_core', '_unnamed0->_core')])}),
+]
